@@ -160,16 +160,35 @@ def run_m_units(pid, tier, units, seed, ev, outcome):
     log("[M] %s: %d units, %d workers" % (pid, len(units), workers))
     try:
         with ThreadPoolExecutor(max_workers=workers) as ex:
-            results = list(ex.map(lambda u: run_unit(mir_path, u), units))
+            results = list(ex.map(lambda u: run_unit(mir_path, dict(u, seed=seed)), units))
     finally:
         try:
             os.remove(mir_path)
         except OSError:
             pass
     for u, r in zip(units, results):
+        if u.get("op") == "validate" and not r.get("error"):
+            # translator validation: every concrete case must give the same result natively and through the encoding
+            mism, agree = [], 0
+            for i, c in enumerate(r.get("cases", [])):
+                nat = native_exec(ck_replay_text(c["case"]), os.path.join(CACHE, "val_%s_%d.txt" % (pid, i)), ("kicks2",))
+                e = c["encoding"]
+                if e.get("error") or nat.get("error"):
+                    mism.append({"case": c["case"], "encoding": e, "native": nat})
+                    continue
+                same = (e["result"] == nat["result"]) and (e["slots"] == nat["slots"]) and (e["n"] == nat["n"])
+                if same:
+                    agree += 1
+                else:
+                    mism.append({"case": c["case"], "encoding": e, "native": nat})
+            r["witnesses"] = {"cases_agree": agree}
+            r["translator_validation"] = {"cases": len(r.get("cases", [])), "agree": agree, "mismatches": mism[:3]}
+            if mism:
+                r["error"] = "translator validation: %d of %d concrete cases differ between the real code and the encoding: %s" % (len(mism), len(r["cases"]), json.dumps(mism[0])[:600])
+            r.pop("cases", None)
         rec = {"engine": "M", "unit": u["name"], "what": u.get("what", ""), "bounds": u.get("bounds", ""), "checks": r.get("queries", 0),
                "paths": r.get("paths"), "witnesses": r.get("witnesses", {}), "solver_time_s": r.get("wall_s", r.get("unit_wall_s")),
-               "failed_tags": r.get("failed", []), "notes": []}
+               "failed_tags": r.get("failed", []), "notes": [], "translator_validation": r.get("translator_validation"), "solver_stats": r.get("solver_stats")}
         failed = [t for t in r.get("failed", [])]
         rec["discharged"] = max(0, rec["checks"] - len(failed))
         ev["units"].append(rec)
